@@ -18,4 +18,11 @@ def run(name, tier):
         bad = fw.mc_run('layerids-pinned', 'LayerIds', layerids_cfg(False, pool, 2), expect_violation='Inv_LayerInOneGroup')
         good['sensitivity'] = {'pinned_variant_violates': bad['violated']}
         return good
+    if name == 'MC_Merge':
+        cfg = ('SPECIFICATION Spec\nCONSTANTS\n Heights = {%s}\n MaxHits = %d\n PrmSet <- MergePrms\n'
+               'INVARIANT Inv_TableTracksGroups\nINVARIANT Inv_BasesCurrent\nINVARIANT Inv_ExitSeparated\n'
+               'PROPERTY Prop_Shrinks\nPROPERTY Prop_Terminates\nCHECK_DEADLOCK FALSE\n')
+        if tier == 'quick':
+            return fw.mc_run('merge-loop', 'MC_Merge', cfg % ('1000, 1200, 1250, 1450, 1600', 4))
+        return fw.mc_run('merge-loop', 'MC_Merge', cfg % ('1000, 1200, 1250, 1450, 1600, 1700', 5))
     raise fw.Machinery('unknown MC instance ' + name)
